@@ -204,7 +204,7 @@ ASSUMPTIONS = [
 
 _EQ = {'name': 'equality-differential', 'script': 'eqdiff.py', 'args': [], 'functions': ['builders::eval_ternary_equality', 'builders::build_eq', 'builders::build_nq', 'core::list_contains'],
        'bound': 'every ordered pair from a 41-value alphabet (null, booleans, numbers spelled differently, strings, dates, durations, flat and nested lists, contexts with the key sets {}, {a}, {b}, {a, b} and nested ones) '
-                'under =, != and list contains: 3389 evaluations against a reference written out from DMN 1.3 section 10.3.2.15; also the stand-in when the extraction of eval_ternary_equality is undecided'}
+                'under =, !=, list contains, index of (and distinct values / union on seven lists): about 4 100 evaluations against a reference written out from DMN 1.3 section 10.3.2.15; also the stand-in when the extraction of eval_ternary_equality is undecided'}
 _CORE = {'name': 'core-expression-cases', 'driver': 'feelcases', 'args': ['/verif/replay/cases/C01_core.txt'],
          'functions': ['build_if', 'build_and / build_or', 'build_between', 'build_in', 'build_filter', 'build_path', 'build_for / build_some / build_every', 'arithmetic and comparison builders'],
          'bound': '86 expressions with the value DMN 1.3 section 10.3.2 assigns: if with true / false / null conditions (a condition that is not true takes the else branch), the three-valued and / or tables, between, in over lists / ranges / unary tests, '
